@@ -128,13 +128,22 @@ type noteMsg struct {
 	FinalNL bool       `json:"finalnl"`
 }
 
-func lineText(l noteLine) string {
+// badTextForms: concrete spellings of "a text line with a character the format forbids" (the specification only knows
+// that the line is bad): a control character between ASCII letters, directly after a two-byte and after a three-byte
+// character, a tab, a carriage return at the end of the line, a byte that is not UTF-8 alone / after a multi-byte
+// character, a truncated multi-byte character at the end of the line, a NUL at the start.
+var badTextForms = []string{"bad\x01line %d", "bad\u00e9\x01line %d", "bad \u4e2d\x1f %d", "bad\tline %d", "bad line %d\r", "bad\xffline %d", "bad\u00e9\xffline %d",
+	"bad line %d \xe4\xb8", "\x00bad line %d", "bad\u00e9\tline %d", "bad \U0001F600\x02 %d"}
+
+func lineText(l noteLine) string { return lineTextF(l, 0) }
+
+func lineTextF(l noteLine, form int) string {
 	switch l.K {
 	case "blank":
 		return ""
 	case "txt":
 		if l.Bad {
-			return fmt.Sprintf("bad\x01line %d", l.ID)
+			return fmt.Sprintf(badTextForms[form%len(badTextForms)], l.ID)
 		}
 		if l.ID%2 == 1 {
 			return fmt.Sprintf("text line %d \u00e9 \ufffd \u4e2d", l.ID) // valid UTF-8, including an encoded U+FFFD
@@ -160,7 +169,7 @@ func lineText(l noteLine) string {
 		binary.BigEndian.PutUint32(hbuf[:], concreteHash(l.Hash))
 		var sig []byte
 		if k, ok := noteKeys[l.Key]; ok {
-			sig = ed25519.Sign(k.priv, []byte(textOf(l.Over)))
+			sig = ed25519.Sign(k.priv, []byte(textOfF(l.Over, form)))
 		} else {
 			s := sha256.Sum256(append([]byte("junk signature "), l.UID...))
 			sig = append(s[:], s[:]...)
@@ -170,17 +179,21 @@ func lineText(l noteLine) string {
 	return "— " + name + " " + b64
 }
 
-func textOf(ls []noteLine) string {
+func textOf(ls []noteLine) string { return textOfF(ls, 0) }
+
+func textOfF(ls []noteLine, form int) string {
 	var sb strings.Builder
 	for _, l := range ls {
-		sb.WriteString(lineText(l))
+		sb.WriteString(lineTextF(l, form))
 		sb.WriteString("\n")
 	}
 	return sb.String()
 }
 
-func msgBytes(m noteMsg) []byte {
-	s := textOf(m.Lines)
+func msgBytes(m noteMsg) []byte { return msgBytesF(m, 0) }
+
+func msgBytesF(m noteMsg, form int) []byte {
+	s := textOfF(m.Lines, form)
 	if !m.FinalNL {
 		s = strings.TrimSuffix(s, "\n")
 	}
@@ -370,6 +383,20 @@ func (w *noteWorld) Check(c *core.Case) ([]core.Violation, bool) {
 	if kind != exp.Kind {
 		vs = append(vs, core.Violation{Sig: "open:outcome:" + exp.Kind + "->" + kind, What: fmt.Sprintf("%s: outcome %s (%v), the documented behaviour is %s", desc, kind, err, exp.Kind), Case: c})
 		return vs, in.Mutated
+	}
+	// the other spellings of a forbidden character in a text line have the same outcome
+	hasBadTxt := false
+	for _, l := range in.Msg.Lines {
+		hasBadTxt = hasBadTxt || (l.K == "txt" && l.Bad)
+	}
+	for f := 1; hasBadTxt && f < len(badTextForms); f++ {
+		d2 := msgBytesF(in.Msg, f)
+		var calls2 []verifyCall
+		_, err2 := note.Open(d2, buildVerifiers(in.Known.Keys, in.Known.Liar, &calls2, &mu))
+		if k2 := classifyNoteErr(err2); k2 != exp.Kind {
+			vs = append(vs, core.Violation{Sig: "open:outcome:" + exp.Kind + "->" + k2, What: fmt.Sprintf("Open(%q) with known keys %v liar=%v: outcome %s (%v), the documented behaviour is %s", d2, in.Known.Keys, in.Known.Liar, k2, err2, exp.Kind), Case: c})
+			break
+		}
 	}
 	var got *note.Note
 	if err == nil {
